@@ -35,26 +35,41 @@ abbrev PRes := Except PErr (List String × List (String × String))
 def kwGet (kw : List (String × String)) (n : String) : Option String :=
   (kw.find? (fun e => e.1 = n)).map (·.2)
 
-/-- the loop over the signature's parameters; `pos` = positional arguments not consumed yet. -/
-def partGo : List SigParam → List String → List (String × String) → List String → List (String × String) → PRes
-  | [], pos, _, ins, attrs => if pos.isEmpty then .ok (ins, attrs) else .error .tooMany
+/-- drop the placeholders left at the end. -/
+def stripPh (l : List String) : List String := (l.reverse.dropWhile (· = "~")).reverse
+
+/-- the loop over the signature's parameters; `pos` = positional arguments not consumed yet.  `ph` = the helper
+    appends a placeholder (`None`, written `~`) for an omitted optional input so that a later input given by keyword
+    keeps its position, and drops the placeholders left at the end (commit b7afd5e; `false`: before it the omitted
+    input was skipped and later keyword inputs shifted left, finding D20g). -/
+def partGo (ph : Bool) : List SigParam → List String → List (String × String) → List String →
+    List (String × String) → PRes
+  | [], pos, _, ins, attrs =>
+    if pos.isEmpty then .ok (if ph then stripPh ins else ins, attrs) else .error .tooMany
   | p :: ps, pos, kw, ins, attrs =>
-    if p.isInput && p.variadic then partGo ps [] kw (ins ++ pos) attrs
+    if p.isInput && p.variadic then partGo ph ps [] kw (ins ++ pos) attrs
     else match pos with
       | a :: rest =>
-        if p.isInput then partGo ps rest kw (ins ++ [a]) attrs else partGo ps rest kw ins (attrs ++ [(p.name, a)])
+        if p.isInput then partGo ph ps rest kw (ins ++ [a]) attrs else partGo ph ps rest kw ins (attrs ++ [(p.name, a)])
       | [] =>
         match kwGet kw p.name with
         | some v =>
-          if p.isInput then partGo ps [] kw (ins ++ [v]) attrs else partGo ps [] kw ins (attrs ++ [(p.name, v)])
+          if p.isInput then partGo ph ps [] kw (ins ++ [v]) attrs else partGo ph ps [] kw ins (attrs ++ [(p.name, v)])
         | none =>
-          if !p.isInput && p.hasDefault then partGo ps [] kw ins attrs
+          if !p.isInput && p.hasDefault then partGo ph ps [] kw ins attrs
           else if p.required then .error (.missing p.name)
-          else partGo ps [] kw ins attrs
+          else if ph && p.isInput then partGo ph ps [] kw (ins ++ ["~"]) attrs
+          else partGo ph ps [] kw ins attrs
 
 /-- `_partition_inputs_attributes` for a call with a schema. -/
-def partition (sig : List SigParam) (args : List String) (kwargs : List (String × String)) : PRes :=
+def partitionWith (ph : Bool) (sig : List SigParam) (args : List String) (kwargs : List (String × String)) : PRes :=
   if kwargs.any (fun e => !(sig.any (fun p => p.name = e.1))) then .error .extraKwargs
-  else partGo sig args kwargs [] []
+  else partGo ph sig args kwargs [] []
+
+/-- which behaviour the pinned /repo has (b7afd5e: placeholders). -/
+def placeholders : Bool := true
+
+def partition (sig : List SigParam) (args : List String) (kwargs : List (String × String)) : PRes :=
+  partitionWith placeholders sig args kwargs
 
 end OV.C18
